@@ -700,7 +700,8 @@ class VerilogGenerator:
             link = ""
             
             for paramName in paramNames:
-                str += link + 'parameter ' +  paramName
+                # IEEE 1364 requires a default value; instances override it with #(.name(value))
+                str += link + 'parameter ' +  paramName + ' = {}'.format(obj.getParameterValue(paramName))
                 link = ',\n\t'
                 
             str += ')\n'
